@@ -6,6 +6,7 @@ package dsl
 import (
 	"errors"
 	"fmt"
+	"strings"
 
 	"github.com/alecthomas/participle/v2"
 	"github.com/alecthomas/participle/v2/lexer"
@@ -281,7 +282,12 @@ func parseAtom(lex *lexer.PeekingLexer) (Expression, error) {
 			expr.Value.Neg(&expr.Value)
 			return expr, nil
 		case *FloatingPointLiteralExpression:
-			expr.Value = "-" + expr.Value
+			// -(-2.0): the literal is already negative, "--2.0" would be a decrement in C++
+			if strings.HasPrefix(expr.Value, "-") {
+				expr.Value = expr.Value[1:]
+			} else {
+				expr.Value = "-" + expr.Value
+			}
 			return expr, nil
 		default:
 			return &UnaryExpression{
